@@ -49,6 +49,9 @@ pub struct GenCfg {
   /// Bottom-up reports are arbitrary (possibly incomplete) subsets: only what is built afterwards in *other* sessions is
   /// judged (C01: 'whatever was built before on the same Pie instance').
   pub arbitrary_reports: bool,
+  /// Long sessions: external changes made while a session is open, each batch reported completely to a bottom-up build of
+  /// that same session (no top-down require between a change and the bottom-up build that reports it).
+  pub mid_session_changes: bool,
   /// Programs whose tasks may fail still get bottom-up builds (only C20's no-spurious-abort oracle judges those).
   pub bu_with_task_panics: bool,
 }
@@ -60,7 +63,7 @@ impl GenCfg {
       rchks: RCHKS.to_vec(), ochks: OCHKS.to_vec(), wchks: vec![RChk::Exact],
       faulty: false, multi_access: true, bottom_up: false, dyn_targets: true, written_to: true,
       bottom_up_weight: 3, wide: false, exact_share: 3, fault_steps: false, panic_steps: false, multi_checker_share: 0, multi_checker: false, task_panic_share: 0, panicky: false,
-      over_report: false, mixed_sessions: false, bu_with_task_panics: false, arbitrary_reports: false,
+      over_report: false, mixed_sessions: false, bu_with_task_panics: false, arbitrary_reports: false, mid_session_changes: false,
     }
   }
   pub fn thorough() -> Self {
@@ -81,7 +84,7 @@ pub fn genome_strategy(cfg: &GenCfg) -> impl Strategy<Value=Genome> {
   (
     proptest::collection::vec(any::<u16>(), 0..=24),
     proptest::collection::vec(proptest::collection::vec(any::<u16>(), 0..=tlen), 1..=cfg.max_tasks),
-    proptest::collection::vec(proptest::collection::vec(any::<u16>(), 0..=14), 1..=cfg.max_steps),
+    proptest::collection::vec(proptest::collection::vec(any::<u16>(), 0..=28), 1..=cfg.max_steps),
   ).prop_map(|(layout, tasks, steps)| Genome { layout, tasks, steps })
 }
 
@@ -577,6 +580,23 @@ pub fn build_history(g: &Genome, prog: &Program, cfg: &GenCfg) -> History {
           }
         }
         builds.push(Build::BottomUp { report, then });
+        // Long session: further rounds of (external changes while the session stays open, bottom-up build reporting
+        // exactly those, requires afterwards).
+        if cfg.mid_session_changes && rd.chance(1, 2) {
+          for _ in 0..1 + rd.pick(3) {
+            let mut rep = vec![];
+            for _ in 0..1 + rd.pick(2) {
+              let res = rd.pick(prog.n_res as usize) as ResId;
+              let v = rd.pick(5);
+              builds.push(Build::Change { res, val: if v < 4 { Some(v as Val) } else { None } });
+              if !rep.contains(&res) { rep.push(res); }
+            }
+            let then2 = (0..rd.pick(3)).map(|_| rd.pick(n_tasks) as TaskId).collect();
+            builds.push(Build::BottomUp { report: rep, then: then2 });
+          }
+          steps.push(Step::Session { builds });
+          continue;
+        }
         // A second bottom-up build in the same session: nothing changed in between, whatever it reports.
         if cfg.mixed_sessions && rd.chance(1, 5) {
           let mut report2 = vec![];
